@@ -626,6 +626,14 @@ fn spectrum(ctx: &mut Ctx, p: &Prim, spdc: &SPDC, singles: bool) {
         &format!("{} | {} {}", st, fr, sdivs),
         &r.map(fl).unwrap_or("PANIC".into()),
       );
+      // JointSpectrum::jsi_singles (normalisation × envelope² × singles function, Simpson 2-D)
+      let s2 = spdc.clone();
+      let r = guard(move || {
+        s2.joint_spectrum(Integrator::Simpson { divs: sdivs }).jsi_singles(w(ws), w(wi)).value_unsafe
+      });
+      if let Some(v) = r {
+        ctx.k("cmp_jsi_singles", &format!("{} | {} {}", st, fr, sdivs), &fl(v));
+      }
     }
   }
 }
